@@ -108,6 +108,11 @@ impl<T: FftNum> RadersAlgorithm<T> {
         let mut inner_fft_scratch = vec![Zero::zero(); required_inner_scratch];
         inner_fft.process_with_scratch(&mut inner_fft_input, &mut inner_fft_scratch);
 
+        // The DC bin of this spectrum is the (scaled) sum of every len-th root of unity except 1, which is exactly -1.
+        // The FFT above only approximates it, with an error that grows with len. Every output depends on this bin through
+        // the mean of the input, so store the exact value.
+        inner_fft_input[0] = Complex::new(-inner_fft_scale, T::zero());
+
         Self {
             inner_fft,
             inner_fft_data: inner_fft_input.into_boxed_slice(),
